@@ -23,6 +23,10 @@ type Fault struct {
 	dir       string // base name of the channel directory, "" = disarmed
 	countdown int
 	fired     bool
+	// short write: the next Write on a data file of channel wdir stores only its first
+	// 1 + wseed mod (len-1) bytes and returns ErrInjected (writes shorter than 2 bytes pass)
+	wdir  string
+	wseed int64
 }
 
 // Arm arms the fault: the n-th (n >= 1) matching ReadAt from now on fails once.
@@ -32,13 +36,35 @@ func (f *Fault) Arm(channelKey uint32, n int) {
 	f.dir, f.countdown, f.fired = strconv.Itoa(int(channelKey)), n, false
 }
 
+// ArmShortWrite arms a one-shot short write on the data files of the channel.
+func (f *Fault) ArmShortWrite(channelKey uint32, seed int64) {
+	f.mu.Lock()
+	defer f.mu.Unlock()
+	f.wdir, f.wseed, f.fired = strconv.Itoa(int(channelKey)), seed, false
+}
+
 // Disarm disarms the fault and reports whether it fired since it was armed.
 func (f *Fault) Disarm() bool {
 	f.mu.Lock()
 	defer f.mu.Unlock()
 	fired := f.fired
-	f.dir, f.countdown, f.fired = "", 0, false
+	f.dir, f.countdown, f.fired, f.wdir = "", 0, false, ""
 	return fired
+}
+
+// shortWrite returns the number of bytes a faulted Write of n bytes stores, or -1.
+func (f *Fault) shortWrite(dir, name string, n int) int {
+	f.mu.Lock()
+	defer f.mu.Unlock()
+	if f.wdir == "" || path.Base(dir) != f.wdir || !isDataFile(name) || n < 2 {
+		return -1
+	}
+	f.wdir, f.fired = "", true
+	seed := f.wseed
+	if seed < 0 {
+		seed = -seed
+	}
+	return 1 + int(seed%int64(n-1))
 }
 
 func (f *Fault) hit(dir, name string) bool {
@@ -93,6 +119,17 @@ type faultFile struct {
 	xfs.File
 	dir, name string
 	fault     *Fault
+}
+
+func (f *faultFile) Write(p []byte) (int, error) {
+	if j := f.fault.shortWrite(f.dir, f.name, len(p)); j >= 0 {
+		n, err := f.File.Write(p[:j])
+		if err != nil {
+			return n, err
+		}
+		return n, ErrInjected
+	}
+	return f.File.Write(p)
 }
 
 func (f *faultFile) ReadAt(p []byte, off int64) (int, error) {
